@@ -306,3 +306,6 @@ SPECS["C12"]["coq_files"] = SPECS["C12"]["coq_files"] + ["Proofs/AdmissionGap.v"
 # handler-level half of C15 (Proofs/HandlerB_Expiry.v over Model/Handler.v)
 SPECS["C15"]["coq_files"] = SPECS["C15"]["coq_files"] + HNDB_FILES + ["Proofs/HandlerB_Examples.v", "Proofs/HandlerB_Trace.v", "Proofs/HandlerB_Trace2.v", "Proofs/HandlerB_Expiry.v"]
 SPECS["C15"]["explanation"] = SPECS["C15"].get("explanation", "") + "; handler level: theorems of Proofs/HandlerB_Expiry.v over Model/Handler.v (a session idle for longer than the timeout is not returned by sess_get, accepts nothing, encrypts nothing, is gone afterwards; capacity bound and last-use ordering in every reachable state) + step-by-step correspondence of the real handler on the paused clock with short session timeouts"
+
+# C19: nonce reuse including handshake packets (Proofs/HandlerB_TraceHs.v, which builds on the Wire4 chain)
+SPECS["C19"]["coq_files"] = SPECS["C19"]["coq_files"] + ["Proofs/HandlerInv.v", "Proofs/HandlerA_Ledger.v", "Proofs/HandlerA_Wire2.v", "Proofs/HandlerA_Wire4.v", "Proofs/HandlerB_TraceHs.v"]
